@@ -57,6 +57,8 @@ def run(ctx: Ctx):
     ctx.guarded(k_by_rank, ctx)
     res.rule("INVOLUTION-PAIR", "an operator that transforms its work array under a flag before the computation (flip for the decreasing variant) undoes it afterwards with the same arguments", floor=1)
     ctx.guarded(involution_pair, ctx)
+    res.rule("RANK-ON-DATA", "an operator that ranks entries (sort / argsort) to find its data-dependent threshold or support ranks the entries of its own input: the ranked array reaches the tensor parameter through re-arrangements (reshape, transpose, flip, copy, vectorise), negation or absolute value only. Ranking a clipped, shifted or otherwise re-valued copy finds the threshold of a different vector than the one it is applied to", floor=2)
+    ctx.guarded(rank_on_data, ctx)
     ctx.guarded(
         run_units,
         ctx,
@@ -65,6 +67,65 @@ def run(ctx: Ctx):
         "V = unit of the tensor and of a threshold / radius",
         "the operator is not jointly homogeneous in (tensor, parameter), so it cannot be the exact prox of a norm-type penalty / projection for every input",
     )
+
+
+# ---------------------------------------------------------------------------------
+# RANK-ON-DATA: what is ranked is the input itself
+# ---------------------------------------------------------------------------------
+ORDER_FAITHFUL = {"reshape", "transpose", "flip", "copy", "tensor_to_vec", "vec_to_tensor", "tensor", "moveaxis", "abs", "absolute", "ravel", "sort", "argsort", "asarray", "to_numpy"}
+
+
+def rank_on_data(ctx: Ctx):
+    import ast
+
+    from ..common import call_name, src
+    from ..inline import with_inlined
+    from ..model import AnalysisError
+    from .state import _resolve_at
+
+    repo, res = ctx.repo, ctx.res
+    mod = repo.module("tensorly.tenalg.proximal")
+    n = 0
+    for f0 in mod.functions.values():
+        if f0.cls is not None or getattr(f0, "parent", None) is not None or not f0.pos_params:
+            continue
+        f = with_inlined(repo, f0, kinds=("nested",))
+        data = f.pos_params[0]
+        for st in ast.walk(f.node):
+            if not isinstance(st, ast.stmt) or isinstance(st, (ast.If, ast.For, ast.While, ast.With, ast.Try, ast.FunctionDef)):
+                continue
+            for c in ast.walk(st):
+                if not (isinstance(c, ast.Call) and (call_name(c) or "") in ("sort", "argsort") and (c.args or isinstance(c.func, ast.Attribute))):
+                    continue
+                if any(isinstance(o, ast.Call) and (call_name(o) or "") in ("sort", "argsort") and o is not c for o in ast.walk(c)):
+                    continue  # argsort(flip(argsort(x))): the ranking of a ranking; the innermost one is judged
+                operand = c.args[0] if c.args else c.func.value
+                e = _resolve_at(operand, st, f.node, depth=6)
+                bad = None
+                cur = e
+                for _ in range(12):
+                    if isinstance(cur, ast.UnaryOp) and isinstance(cur.op, ast.USub):
+                        cur = cur.operand
+                        continue
+                    if isinstance(cur, ast.Call):
+                        nm = call_name(cur) or ""
+                        if nm in ORDER_FAITHFUL and (cur.args or isinstance(cur.func, ast.Attribute)):
+                            cur = cur.args[0] if cur.args else cur.func.value  # f(x, ...) / x.f()
+                            continue
+                        bad = cur
+                        break
+                    break
+                if bad is None and not (isinstance(cur, ast.Name) and cur.id == data):
+                    if not any(isinstance(x, ast.Name) and x.id == data for x in ast.walk(e)):
+                        continue  # ranks something that is not the input (a list of sizes, ...): not an instance
+                    bad = cur
+                n += 1
+                ok = bad is None
+                res.instance("RANK-ON-DATA", f"{f.qname}: {src(c)[:60]}", sample={"ranked": src(e)[:100], "ok": ok})
+                if not ok:
+                    ctx.finding("RANK-ON-DATA", f, c, f"{f.name} ranks `{src(e)[:90]}`: between the ranking and the input `{data}` stands `{src(bad)[:70]}`, which changes values (not a re-arrangement, negation or absolute value). The threshold / support found this way belongs to the re-valued vector, but it is applied to `{data}`: for inputs where the two differ (e.g. negative entries under a clip) the result is not the minimiser", construct=f"{f.name}: ranks {src(bad)[:50]}")
+    if n == 0:
+        raise AnalysisError("RANK-ON-DATA: no operator of tensorly.tenalg.proximal ranks its input any more; cannot decide")
 
 
 # ---------------------------------------------------------------------------------
